@@ -390,3 +390,58 @@ Theorem first_last_of_under_sunday_firstweekday :
   dow (mkdate 2024 5 6) = 0 /\ dow (mkdate 2024 12 29) = 6.
 Proof. exact fw_former_witnesses. Qed.
 Print Assumptions first_last_of_under_sunday_firstweekday.
+
+(* ---- the model IS the code (Date): Gen/DateGlue.v is TRANSLATED from src/pendulum/date.py on every run (tools/vlib/gens/g82_weekday_glue.py) on the
+   object model gdate of Model/TzGlueObj.v, calling the translated Date.add / Date.subtract of Gen/TzGlue.v; gd_of p = the object of the date p,
+   gres = the same on results.  Native primitives (Model/DateGlueObj.v): Date.day_of_week, Date.days_in_month, Date.quarter (the translated
+   py_Date_quarter), `dt.format("YYYY-MM") == check` (= same year and month) and calendar.Calendar(calendar.MONDAY).monthdayscalendar(y, m)[i][c],
+   which is mc_get of Model/Weekday.v — a primitive of the standard library, not translated.  The `while` of next / previous is a template
+   around the translated test and step (fuel 7 as in the model); the getattr dispatches of first_of / last_of and the try / except of nth_of are
+   written by hand over the translated helpers (Proofs/DateGlueFacts.v wglue_Date_first_of, wglue_Date_last_of, wglue_Date_nth_of). ---- *)
+From PV Require Import Model.TzGlueObj Gen.TzGlue Model.DateGlueObj Gen.DateGlue Proofs.DateGlueFacts.
+
+Theorem model_is_code_date_set_replace : forall p oy om od, wf_date p ->
+  wglue_Date_set (gd_of p) oy om od = gres (date_new (dflt oy (d_year p)) (dflt om (d_month p)) (dflt od (d_day p))) /\
+  wglue_Date_replace (gd_of p) oy om od = gres (date_new (dflt oy (d_year p)) (dflt om (d_month p)) (dflt od (d_day p))).
+Proof. intros; split; [apply wglue_Date_set_eq|apply wglue_Date_replace_eq]; assumption. Qed.
+Print Assumptions model_is_code_date_set_replace.
+
+Theorem model_is_code_date_add_days : forall p k, wf_date p -> -999999999 <= k <= 999999999 ->
+  glue_Date_add (gd_of p) 0 0 0 k = gres (date_add_days p k) /\ glue_Date_subtract (gd_of p) 0 0 0 k = gres (date_add_days p (- k)).
+Proof. intros; split; [apply glue_add_days|apply glue_sub_days]; assumption. Qed.
+Print Assumptions model_is_code_date_add_days.
+
+Theorem model_is_code_date_next_previous : forall p wd, wf_date p ->
+  wglue_Date_next (gd_of p) wd = gres (d_next p wd) /\ wglue_Date_previous (gd_of p) wd = gres (d_previous p wd).
+Proof. intros; split; [apply wglue_Date_next_eq|apply wglue_Date_previous_eq]; assumption. Qed.
+Print Assumptions model_is_code_date_next_previous.
+
+Theorem model_is_code_date_first_last_of_month : forall p wd, wf_date p ->
+  wglue_Date_first_of_month (gd_of p) wd = gres (d_first_of_month p wd) /\ wglue_Date_last_of_month (gd_of p) wd = gres (d_last_of_month p wd).
+Proof. intros; split; [apply wglue_Date_first_of_month_eq|apply wglue_Date_last_of_month_eq]; assumption. Qed.
+Print Assumptions model_is_code_date_first_last_of_month.
+
+Theorem model_is_code_date_first_last_of_quarter_year : forall p wd, wf_date p ->
+  wglue_Date_first_of_quarter (gd_of p) wd = gres (d_first_of_quarter p wd) /\ wglue_Date_last_of_quarter (gd_of p) wd = gres (d_last_of_quarter p wd) /\
+  wglue_Date_first_of_year (gd_of p) wd = gres (d_first_of_year p wd) /\ wglue_Date_last_of_year (gd_of p) wd = gres (d_last_of_year p wd).
+Proof.
+  intros; repeat split; [apply wglue_Date_first_of_quarter_eq|apply wglue_Date_last_of_quarter_eq|apply wglue_Date_first_of_year_eq
+                        |apply wglue_Date_last_of_year_eq]; assumption.
+Qed.
+Print Assumptions model_is_code_date_first_last_of_quarter_year.
+
+Theorem model_is_code_date_first_of_last_of : forall u p wd, wf_date p ->
+  wglue_Date_first_of u (gd_of p) wd = gres (d_first_of u p wd) /\ wglue_Date_last_of u (gd_of p) wd = gres (d_last_of u p wd).
+Proof. intros; split; [apply wglue_Date_first_of_eq|apply wglue_Date_last_of_eq]; assumption. Qed.
+Print Assumptions model_is_code_date_first_of_last_of.
+
+Theorem model_is_code_date_nth_of_helpers : forall p nth wd, wf_date p ->
+  wglue_Date_nth_of_month (gd_of p) nth wd = gres_opt (d_nth_of_month p nth wd) /\
+  wglue_Date_nth_of_quarter (gd_of p) nth wd = gres_opt (d_nth_of_quarter p nth wd) /\
+  wglue_Date_nth_of_year (gd_of p) nth wd = gres_opt (d_nth_of_year p nth wd).
+Proof. intros; repeat split; [apply wglue_Date_nth_of_month_eq|apply wglue_Date_nth_of_quarter_eq|apply wglue_Date_nth_of_year_eq]; assumption. Qed.
+Print Assumptions model_is_code_date_nth_of_helpers.
+
+Theorem model_is_code_date_nth_of : forall u p nth wd, wf_date p -> wglue_Date_nth_of u (gd_of p) nth wd = gres (d_nth_of u p nth wd).
+Proof. exact wglue_Date_nth_of_eq. Qed.
+Print Assumptions model_is_code_date_nth_of.
